@@ -91,6 +91,20 @@ func cfgParts(kind string, tokens int) []string {
 	f := float64(tokens)
 	once, konst := cfgOnce, cfgConst
 	switch {
+	case strings.HasPrefix(kind, "cz:"): // the same parts as czParts
+		var out []string
+		for _, p := range strings.Split(strings.TrimPrefix(kind, "cz:"), ".") {
+			if strings.HasSuffix(p, "c") {
+				if n := atoi(strings.TrimSuffix(p, "c")); n == 0 {
+					out = append(out, konst(0, time.Millisecond))
+				} else {
+					out = append(out, konst(1000, time.Duration(n)*time.Millisecond+time.Microsecond))
+				}
+				continue
+			}
+			out = append(out, once(atoi(p)))
+		}
+		return out
 	case kind == "const":
 		if tokens == 0 {
 			return []string{konst(0, 20*time.Millisecond)}
@@ -319,6 +333,10 @@ func cfgPools(m map[string]string, npools int) ([]*poolRun, engine.Config, error
 		pr := &poolRun{rec: rec}
 		tokens := atoi(get("tokens"))
 		pr.exact = mkSchedule(get("sched"), tokens).Left()
+		pr.parts = partsLeft(get("sched"), tokens)
+		if k := get("sched"); get("rpsy") == "split" && (k == "" || k == "once") {
+			pr.parts = itoa(tokens-tokens/3) + "," + itoa(tokens/3)
+		}
 		pr.cap = mkStartup(get("start"), atoi(get("inst"))).Left()
 		pc := &conf.Pools[j]
 		var ids map[any]int
